@@ -10,6 +10,7 @@
 (* The locations are those the code has (read off call.go, args.go,        *)
 (* func.go, value_set.go):                                                 *)
 (*   optN      - the name variable captured by a NamedSubtype option       *)
+(*   (F19: Redefine's by-value copy of a function reads onceRes)           *)
 (*   callOpts  - the default option slice of the shared target (read only) *)
 (*   onceRes   - Func.onceResult of a shared run-once converter            *)
 (*   cachedOut - the backing array of the memoized Result.out              *)
@@ -39,7 +40,9 @@ Program(g) ==
      Acc(cv("onceRes"), "r", IF "F9" \in Bugs THEN none ELSE cv("onceMu")),       \* callDirect: memo check
      Acc(cv("onceRes"), "w", IF "F9" \in Bugs THEN none ELSE cv("onceMu")),       \* callDirect: memo store (first use)
      Acc(cv("cachedOut"), IF "F6" \in Bugs THEN "w" ELSE "r", none),              \* value_set.go: result()
-     Acc(<<"graph", g>>, "w", none) >>
+     Acc(<<"graph", g>>, "w", none),
+     \* redefine.go: Redefine copies every function of its graph by value (reads onceRes); since the repair of F19 under the lock
+     Acc(cv("onceRes"), "r1", IF "F19" \in Bugs THEN none ELSE cv("onceMu")) >>
 
 NoLock == <<"none", 0>>
 VARIABLES pos, held    \* pos[g]: next access of g (1..Len+1); held: lock -> holder (0 free)
@@ -51,9 +54,10 @@ Active(g) == pos[g] <= Len(Program(g))
 \* the once lock is held from the memo check to the memo store (two consecutive accesses)
 Step(g) == /\ Active(g)
            /\ LET a == Cur(g) IN
-              /\ (a.lock # NoLock => held[a.lock] \in {0, g})
+              /\ (a.lock # NoLock => held[a.lock] \in (IF a.kind = "r1" THEN {0} ELSE {0, g}))
               /\ pos' = [pos EXCEPT ![g] = @ + 1]
-              /\ held' = IF a.lock = NoLock THEN held
+              \* "r1": a single access under the lock (acquired and released within the step)
+              /\ held' = IF a.lock = NoLock \/ a.kind = "r1" THEN held
                          ELSE IF a.kind = "w" THEN [held EXCEPT ![a.lock] = 0] ELSE [held EXCEPT ![a.lock] = g]
 Next == \E g \in Gs : Step(g)
 Spec == Init /\ [][Next]_vars
